@@ -586,6 +586,11 @@ func (u *UnitResult) replay(o *OblResult, p *Program, base string) (rr ReplayRes
 		u.replayLemma(o, p, base, smt, doc, &rr)
 		return
 	}
+	// a hand-written replay template for this unit+kind takes precedence (inputs that cannot be rebuilt generically)
+	if tp := filepath.Join(verifDir(), "lemmas", sanitize(u.Unit)+"__"+o.Kind+".replay.go.tmpl"); fileExists(tp) {
+		u.replayTemplate(tp, o, p, base, smt, doc, &rr, nil, "")
+		return
+	}
 	if u.Kind != "func" || u.frame == nil {
 		doc.Notes = append(doc.Notes, "replay is implemented for function units and for lemmas with a replay template")
 		return
@@ -886,48 +891,66 @@ func (u *UnitResult) otherViolation(o *OblResult, exclude string, opt Options) b
 // replayLemma: a lemma talks about contracts, not one call; its replay is a hand-written template
 // (/verif/lemmas/<name>.replay.go.tmpl) that calls the real functions the lemma is about with the
 // model's values substituted for {{param}} and prints GOVC-CONFIRMED when the real code misbehaves.
+func fileExists(p string) bool {
+	_, err := os.Stat(p)
+	return err == nil
+}
+
 func (u *UnitResult) replayLemma(o *OblResult, p *Program, base, smt string, doc *replayDoc, rr *ReplayResult) {
 	tmplPath := filepath.Join(verifDir(), "lemmas", u.Key+".replay.go.tmpl")
+	lm := p.Specs.Lemmas[u.Key]
+	var names []string
+	for _, prm := range lm.Params {
+		names = append(names, prm.Name)
+	}
+	u.replayTemplate(tmplPath, o, p, base, smt, doc, rr, names, lm.PkgPath)
+}
+
+// replayTemplate: a replay written by hand (/verif/lemmas/*.replay.go.tmpl) that calls the real
+// functions with the model's values substituted for {{param}} and prints GOVC-CONFIRMED when the
+// real code misbehaves.
+func (u *UnitResult) replayTemplate(tmplPath string, o *OblResult, p *Program, base, smt string, doc *replayDoc, rr *ReplayResult, params []string, pkgPath string) {
 	tb, err := os.ReadFile(tmplPath)
 	if err != nil {
-		doc.Notes = append(doc.Notes, "no replay template for this lemma ("+tmplPath+")")
+		doc.Notes = append(doc.Notes, "no replay template ("+tmplPath+")")
 		return
 	}
-	query, err := os.ReadFile(smt)
-	if err != nil {
-		return
-	}
-	sess, err := startZ3("z3-new")
-	if err != nil {
-		return
-	}
-	defer sess.close()
-	sess.send("(set-option :timeout 60000)")
-	sess.send(strings.Replace(string(query), "(check-sat)\n", "", 1))
-	sess.send("(check-sat)")
-	ans, err := sess.readSexp(90 * time.Second)
-	if err != nil || strings.TrimSpace(ans) != "sat" {
-		doc.Notes = append(doc.Notes, "model extraction: z3-new answered "+strings.TrimSpace(ans))
-		return
-	}
-	lm := p.Specs.Lemmas[u.Key]
-	g := u.gen
-	rb := &replayBuilder{u: u, g: g, m: &modelSession{s: sess, cache: map[string]string{}}, pkg: p.typesPkg(lm.PkgPath),
-		imports: map[string]string{}, inputs: map[string]string{}, backing: map[string]string{}, objs: map[string]string{}}
 	text := string(tb)
-	for _, prm := range lm.Params {
-		v := u.lemmaVals[prm.Name]
-		if v == nil {
-			continue
+	g := u.gen
+	if len(params) > 0 {
+		query, err := os.ReadFile(smt)
+		if err != nil {
+			return
 		}
-		lit := rb.lit(v, v.T, g.entry, 0)
-		rb.inputs[prm.Name] = lit
-		text = strings.ReplaceAll(text, "{{"+prm.Name+"}}", lit)
-	}
-	doc.Inputs = rb.inputs
-	if len(rb.pre) > 0 || rb.partial {
-		doc.Notes = append(doc.Notes, "lemma parameters of this shape cannot be substituted into the template")
-		return
+		sess, err := startZ3("z3-new")
+		if err != nil {
+			return
+		}
+		defer sess.close()
+		sess.send("(set-option :timeout 60000)")
+		sess.send(strings.Replace(string(query), "(check-sat)\n", "", 1))
+		sess.send("(check-sat)")
+		ans, err := sess.readSexp(90 * time.Second)
+		if err != nil || strings.TrimSpace(ans) != "sat" {
+			doc.Notes = append(doc.Notes, "model extraction: z3-new answered "+strings.TrimSpace(ans))
+			return
+		}
+		rb := &replayBuilder{u: u, g: g, m: &modelSession{s: sess, cache: map[string]string{}}, pkg: p.typesPkg(pkgPath),
+			imports: map[string]string{}, inputs: map[string]string{}, backing: map[string]string{}, objs: map[string]string{}}
+		for _, name := range params {
+			v := u.lemmaVals[name]
+			if v == nil {
+				continue
+			}
+			lit := rb.lit(v, v.T, g.entry, 0)
+			rb.inputs[name] = lit
+			text = strings.ReplaceAll(text, "{{"+name+"}}", lit)
+		}
+		doc.Inputs = rb.inputs
+		if len(rb.pre) > 0 || rb.partial {
+			doc.Notes = append(doc.Notes, "parameters of this shape cannot be substituted into the template")
+			return
+		}
 	}
 	dir := "."
 	for _, line := range strings.Split(text, "\n") {
@@ -957,6 +980,6 @@ func (u *UnitResult) replayLemma(o *OblResult, p *Program, base, smt string, doc
 		rr.Confirmed = true
 	} else {
 		doc.Outcome = "not-confirmed"
-		doc.Notes = append(doc.Notes, "the real functions did not exhibit the behaviour the failed lemma allows on the model's values")
+		doc.Notes = append(doc.Notes, "the real functions did not exhibit the behaviour the failed obligation allows")
 	}
 }
